@@ -13,12 +13,12 @@ func init() {
 	register(&mc.Prop{
 		ID: "C03",
 		Rule: "S = every ordered tuple of n<=3 (thorough 4) fields drawn from one representative per skip-relevant encoding (varint, fixed32, fixed64, string, nested struct, packed slice, counted slice of strings / structs, map, time, pointer, slice of packed slices), followed by a sentinel field with the highest index, also nested one level (S as a field, as a slice element, as a map value under two keys and behind an already populated pointer of an outer struct; the last two with removals only); " +
-			"S' = every subset of removals x every permutation of the remaining declarations with fresh names x optionally one added fresh-index field of each representative kind; values = full product of {zero, nz1, nz2} per field; the target S' is pre-populated with sentinel values. " +
+			"S' = every subset of removals x every permutation of the remaining declarations with fresh names x optionally one added fresh-index field of each representative kind; values = full product of {zero, nz1, nz2} per field ({zero, nz2} for four-field tuples); the target S' is pre-populated with sentinel values. " +
 			"Oracle: no error; shared indexes receive what decoding into S gives (reference expectation); removed fields are skipped exactly (the sentinel field after them is intact); fields absent from the data and added fields keep their pre-populated value. non-trivial = pair where at least one non-zero field of S is removed in S'",
 		Assumptions: []string{"field kinds are representatives of wire classes, not every leaf"},
 		Work:        c03Work,
 		Post: func(a *mc.Agg) []string {
-			return needDims(a, "removed:1", "removed:2", "reordered", "added", "nest:top", "nest:field", "nest:elem", "nest:mapval", "nest:ptr")
+			return needDims(a, "removed:1", "removed:2", "reordered", "added", "nest:top", "nest:field", "nest:elem", "nest:mapval", "nest:ptr", "highest-index-first")
 		},
 	})
 }
@@ -66,7 +66,10 @@ func c03Work(c *mc.Ctx) {
 		if len(tuple) > 0 {
 			unit++
 			if c.Owns(unit) && !c.Expired() {
-				c03Tuple(c, kinds, tuple)
+				c03Tuple(c, kinds, tuple, false)
+				// the first declared field carrying the struct's HIGHEST index: once removed, its index
+				// lies beyond everything S' knows while shared fields still follow it on the wire
+				c03Tuple(c, kinds, tuple, true)
 			}
 		}
 		if len(tuple) == n {
@@ -96,13 +99,18 @@ func c03Struct(kinds []c03Kind, idxs []int, kindOf []int, prefix string) *ref.T 
 	return ref.Struct(fs...)
 }
 
-func c03Tuple(c *mc.Ctx, kinds []c03Kind, tuple []int) {
+func c03Tuple(c *mc.Ctx, kinds []c03Kind, tuple []int, hi bool) {
 	n := len(tuple)
 	idxs := make([]int, n)
 	names := make([]string, n)
 	for i := range tuple {
 		idxs[i] = i + 1
 		names[i] = kinds[tuple[i]].name
+	}
+	if hi {
+		idxs[0] = 100
+		names[0] += "@100"
+		c.Dim("highest-index-first")
 	}
 	S := c03Struct(kinds, idxs, tuple, "A")
 	if !c.Begin(fmt.Sprintf(`{"S":%q}`, strings.Join(names, ","))) {
@@ -157,6 +165,9 @@ func c03Tuple(c *mc.Ctx, kinds []c03Kind, tuple []int) {
 			return
 		}
 		for x := 0; x < 3; x++ {
+			if n >= 4 && x == 1 {
+				continue // four-field tuples (thorough tier): {zero, nz2} per field keeps the tier inside its budget
+			}
 			choice[i] = x
 			recv(i + 1)
 		}
@@ -190,10 +201,10 @@ func c03Tuple(c *mc.Ctx, kinds []c03Kind, tuple []int) {
 				return
 			}
 			for _, vr := range variants {
-				if (nest == "mapval" || nest == "ptr") && !vr.basic {
+				if (nest == "mapval" || nest == "ptr" || hi) && !vr.basic {
 					continue
 				}
-				c03Pair(c, p, kinds, tuple, names, S, v, data, nest, vr.keep, vr.added)
+				c03Pair(c, p, kinds, tuple, idxs, names, S, v, data, nest, vr.keep, vr.added)
 			}
 		}
 	}
@@ -218,7 +229,7 @@ func permuteInts(a []int, f func([]int)) {
 
 func c03Pair(c *mc.Ctx, p interface {
 	Unmarshal([]byte, interface{}) error
-}, kinds []c03Kind, tuple []int, names []string, S *ref.T, v ref.V, data []byte, nest string, keep []int, added int) {
+}, kinds []c03Kind, tuple []int, idxs []int, names []string, S *ref.T, v ref.V, data []byte, nest string, keep []int, added int) {
 	n := len(tuple)
 	c.AddEvals(1)
 	c.Count("states", 1)
@@ -240,7 +251,7 @@ func c03Pair(c *mc.Ctx, p interface {
 	// S' fields: kept ones (fresh names), optional added one with a fresh index, sentinel
 	var fs []ref.F
 	for i, k := range keep {
-		fs = append(fs, ref.F{Name: fmt.Sprintf("B%d", i), Index: k + 1, T: kinds[tuple[k]].t})
+		fs = append(fs, ref.F{Name: fmt.Sprintf("B%d", i), Index: idxs[k], T: kinds[tuple[k]].t})
 	}
 	if added >= 0 {
 		c.Dim("added")
